@@ -1,6 +1,7 @@
 package main
 
 import (
+	"os"
 	"reflect"
 	"fmt"
 	"go/constant"
@@ -103,6 +104,13 @@ func derivesFromParamOrLen(v ssa.Value, p *ssa.Parameter) bool {
 		return true
 	}
 	switch x := v.(type) {
+	case *ssa.Parameter:
+		// a parameter of a new helper: what its callers (below the method in focus) pass
+		for _, a := range helperArgs(x) {
+			if a != v && derivesFromParamOrLen(a, p) {
+				return true
+			}
+		}
 	case *ssa.Call:
 		if b, ok := x.Call.Value.(*ssa.Builtin); ok && b.Name() == "len" && len(x.Call.Args) == 1 {
 			return derivesFromParamOrLen(x.Call.Args[0], p)
@@ -133,6 +141,9 @@ func guardedByNilErr(fn *ssa.Function, in ssa.Instruction, call *ssa.Call) bool 
 			}
 		}
 		if !good {
+			if os.Getenv("VERIF_DEBUG_GUARD") != "" {
+				fmt.Fprintf(os.Stderr, "guardedByNilErr %s: path without nil-check of %s: %s\n", fnName(fn), exprName(ev), litsString(p))
+			}
 			return false
 		}
 	}
@@ -901,9 +912,10 @@ func ruleR03_7(w *World, r *Report) {
 			continue
 		}
 		args := as.Call.Args
-		k, isK := args[len(args)-1].(*ssa.Const)
+		// through a new helper the flag and the kind are the helper's parameters: what the method in focus passes counts
+		k, isK := throughHelperParam(args[len(args)-1]).(*ssa.Const)
 		garbageFalse := isK && k.Value != nil && k.Value.ExactString() == "false"
-		kind, _ := constInt(args[len(args)-2])
+		kind, _ := constInt(throughHelperParam(args[len(args)-2]))
 		wk, known := wantKind[m.Name()]
 		good := garbageFalse && guardedByNilErr(fn, ctor.(ssa.Instruction), as) && (!known || kind == wk)
 		r.Check(good, cons, u.Pos(as.Pos()), "asserted (live container of the right kind) before the operation is built",
